@@ -11,7 +11,7 @@ import re
 from sa import norm
 from sa.errors import AnalysisError
 from sa.flow import Flow, Site
-from sa.model import Repo
+from sa.model import Func, Repo
 from sa.norm import T
 from sa.report import Check
 
@@ -66,10 +66,16 @@ def realize(repo: Repo, chk: Check) -> None:
         rev = norm.any_match(["$p.walk(reverse=True)"], loop.iter) is not None
         fwd = norm.any_match(["$p.walk()"], loop.iter) is not None
         a0, a1 = (s.expand(a) for a in s.node.args[:2])
-        src_first = norm.match(T("$x.source"), a0) is not None and norm.match(T("$op.dest"), a1, {"op": op}) is not None
-        dst_first = norm.match(T("$op.dest"), a0, {"op": op}) is not None and norm.match(T("$x.source"), a1) is not None
+        def is_src(e: ast.expr) -> bool:
+            # the chain's source: `<op reached by walking up the casts>.source`, or the repo's own helper for exactly that walk
+            return norm.match(T("$x.source"), e) is not None or norm.match(T("get_source_operand($op)"), e, {"op": op}) is not None
+
+        src_first = is_src(a0) and norm.match(T("$op.dest"), a1, {"op": op}) is not None
+        dst_first = norm.match(T("$op.dest"), a0, {"op": op}) is not None and is_src(a1)
         which = "copy-in" if src_first else "copy-out" if dst_first else None
         if which is None:
+            if any(isinstance(c_, ast.Call) and isinstance(c_.func, ast.Name) for a_ in (a0, a1) for c_ in ast.walk(a_)):
+                raise AnalysisError(f"{s.where()}: CopyOp({ast.unparse(a0)[:40]}, {ast.unparse(a1)[:40]}): an operand is computed by a call that is not looked through")
             chk.bad("C12.copy-in", f"{f.key}:copy@{'rev' if rev else 'fwd'}", s.where(), f"CopyOp({ast.unparse(a0)[:40]}, {ast.unparse(a1)[:40]}) is neither source->dest nor dest->source")
             continue
         seen.add(which)
@@ -162,13 +168,29 @@ def _norm_loop(n: ast.While, var: str) -> str:
 def chain(repo: Repo, chk: Check) -> None:
     chk.rule("C12.chain", "the chain source is found by following `.source` while the producer is a MemorySpaceCastOp or LayoutCast, identically in get_source_operand and in RealizeMemrefCasts", floor=2)
     loops = []
+
+    def _walk_of(f: Func, depth: int = 0) -> tuple[Func, ast.While] | None:
+        """the chain-following loop of f, or of a module-level helper f hands its cast to"""
+        w_ = [n_ for n_ in ast.walk(f.node) if isinstance(n_, ast.While) and ".source" in ast.unparse(n_.test)]
+        if w_:
+            return f, w_[0]
+        if depth >= 2:
+            return None
+        for c_ in ast.walk(f.node):
+            if isinstance(c_, ast.Call) and isinstance(c_.func, ast.Name) and c_.func.id in f.module.funcs and f.module.funcs[c_.func.id].node is not f.node:
+                got = _walk_of(f.module.funcs[c_.func.id], depth + 1)
+                if got is not None:
+                    return got
+        return None
+
     for qual in ("get_source_operand", "RealizeMemrefCasts.match_and_rewrite"):
-        f = repo.func(CASTS, qual)
+        f0 = repo.func(CASTS, qual)
+        chk.analysed(f0.key)
+        got = _walk_of(f0)
+        if got is None:
+            raise AnalysisError(f"{f0.where}: chain-following loop not found")
+        f, n = got
         chk.analysed(f.key)
-        w = [n for n in ast.walk(f.node) if isinstance(n, ast.While) and ".source" in ast.unparse(n.test)]
-        if not w:
-            raise AnalysisError(f"{f.where}: chain-following loop not found")
-        n = w[0]
         var = n.body[0].targets[0].id if isinstance(n.body[0], ast.Assign) and isinstance(n.body[0].targets[0], ast.Name) else "source_op"
         t = ast.unparse(norm.canon(n.test))
         both = "MemorySpaceCastOp" in t and "LayoutCast" in t and "OpResult" in t
@@ -500,16 +522,25 @@ def alloc_dyn_sizes(repo: Repo, chk: Check) -> None:
     ok_guard = ok_dim = False
     for a in apps:
         lp = [l for l in a.loops if isinstance(l, ast.For)]
-        if not lp or not isinstance(lp[-1].target, ast.Name):
+        if not lp:
             continue
-        iv = lp[-1].target.id
-        in_order = norm.match(T("range(len($sh))"), lp[-1].iter) is not None
-        guard = any(x.kind == "atom" and norm.any_match([f"$sh[{iv}] == builtin.DYNAMIC_INDEX", f"$sh[{iv}] == DYNAMIC_INDEX"], x.expr) is not None for x in a.facts)
+        tg = lp[-1].target
+        if isinstance(tg, ast.Name):
+            iv = tg.id
+            in_order = norm.match(T("range(len($sh))"), lp[-1].iter) is not None
+            guard = any(x.kind == "atom" and norm.any_match([f"$sh[{iv}] == builtin.DYNAMIC_INDEX", f"$sh[{iv}] == DYNAMIC_INDEX"], x.expr) is not None for x in a.facts)
+        elif isinstance(tg, ast.Tuple) and len(tg.elts) == 2 and all(isinstance(e, ast.Name) for e in tg.elts) and norm.match(T("enumerate($sh)"), lp[-1].iter) is not None:
+            # for i, size in enumerate(shape): `size` is shape[i]
+            iv, sv = tg.elts[0].id, tg.elts[1].id  # type: ignore[attr-defined]
+            in_order = True
+            guard = any(x.kind == "atom" and norm.any_match([f"{sv} == builtin.DYNAMIC_INDEX", f"{sv} == DYNAMIC_INDEX"], x.expr) is not None for x in a.facts)
+        else:
+            continue
         ok_guard = ok_guard or (guard and in_order)
         cone = fl.cone(a.node.args[0], a, inline=0)
         for _, m in norm.find(T("memref.DimOp.from_source_and_index($src, $idx)"), cone) + norm.find(T("DimOp.from_source_and_index($src, $idx)"), cone):
             idx_c = fl.cone(m["idx"], a, inline=0)
-            if norm.contains(idx_c, T(f"$c.from_int_and_width({iv}, $t)")) and norm.contains(m["src"], T("$o.source")):
+            if norm.contains(idx_c, T(f"$c.from_int_and_width({iv}, $t)")) and (norm.contains(m["src"], T("$o.source")) or norm.contains(m["src"], T("get_source_operand($o)"))):
                 ok_dim = True
     chk.result(ok_guard, "C12.alloc-dyn-sizes", f"{f.key}:one-per-dynamic-dim", s.where(), "a size operand is appended exactly for the DYNAMIC dimensions, walking the dimensions in order",
                "dynamic size operands are not appended under `shape[i] == DYNAMIC_INDEX` in dimension order")
